@@ -10,6 +10,8 @@
     the defaulted fields whose key is absent.
 -/
 import Mashu.Args
+import Mashu.Mro
+import Mashu.Generated
 import Mashu.Props.C05
 namespace Mashu.Args
 
@@ -344,3 +346,181 @@ theorem noninit_never_read (O : Oracle) (cx : Cx) (cls : String) (cfg : Cfg) (f 
   simp [hi, hrest]
 
 end Mashu
+
+/-! ### inherited members: which Field object the builder consults -/
+namespace Mashu.Mro
+
+theorem get_set (d : Dict) (k k' : String) (v : Nat) :
+    get (set d k v) k' = if k' = k then some v else get d k' := by
+  unfold set
+  by_cases hany : d.any (fun kv => kv.1 == k) = true
+  · simp only [hany, if_true]
+    induction d with
+    | nil => simp at hany
+    | cons x xs ih =>
+      simp only [get, List.map_cons, List.find?_cons]
+      by_cases hx : x.1 = k
+      · subst hx
+        by_cases hk : k' = x.1
+        · subst hk; simp
+        · have : (x.1 == k') = false := by simp; exact fun h => hk h.symm
+          simp only [beq_self_eq_true, if_true, this, hk, if_false]
+          have hk2 : (x.1 == k') = false := this
+          by_cases hany' : xs.any (fun kv => kv.1 == x.1) = true
+          · have := ih hany'; simp only [get, hk, if_false] at this; exact this
+          · -- no other entry with this key: map is the identity on xs
+            have hid : xs.map (fun kv => if (kv.1 == x.1) = true then (x.1, v) else kv) = xs := by
+              have : ∀ kv ∈ xs, (kv.1 == x.1) = false := by
+                intro kv hkv
+                cases h : kv.1 == x.1 with
+                | false => rfl
+                | true => exact absurd (List.any_eq_true.mpr ⟨kv, hkv, h⟩) hany'
+              conv => rhs; rw [← List.map_id xs]
+              apply List.map_congr_left
+              intro kv hkv; simp [this kv hkv]
+            rw [hid]
+      · have hx' : (x.1 == k) = false := by simp [hx]
+        simp only [hx', Bool.false_eq_true, if_false]
+        have hany' : xs.any (fun kv => kv.1 == k) = true := by
+          simp only [List.any_cons, hx', Bool.false_or] at hany; exact hany
+        have := ih hany'
+        simp only [get] at this
+        by_cases hk : k' = k
+        · subst hk
+          have : (x.1 == k') = false := hx'
+          simp only [this]
+          rename_i ih2; simp only [if_true] at ih2; simpa using ih2
+        · simp only [hk, if_false] at this ⊢
+          cases hxk : x.1 == k' with
+          | true => rfl
+          | false => simpa using this
+  · simp only [hany, Bool.false_eq_true, if_false]
+    have hnone : ∀ kv ∈ d, (kv.1 == k) = false := by
+      intro kv hkv
+      cases h : kv.1 == k with
+      | false => rfl
+      | true => exact absurd (List.any_eq_true.mpr ⟨kv, hkv, h⟩) hany
+    simp only [get, List.find?_append]
+    by_cases hk : k' = k
+    · subst hk
+      have : d.find? (fun kv => kv.1 == k') = none := by
+        rw [List.find?_eq_none]; intro kv hkv; simp [hnone kv hkv]
+      simp [this]
+    · simp only [hk, if_false]
+      cases hf : d.find? (fun kv => kv.1 == k') with
+      | some kv => simp
+      | none => simp; exact fun h => hk h.symm
+
+
+theorem get_append (a b : Dict) (k : String) :
+    get (a ++ b) k = match get a k with | some v => some v | none => get b k := by
+  simp only [get, List.find?_append]
+  cases a.find? (fun kv => kv.1 == k) <;> simp
+
+theorem get_filter (d : Dict) (n k : String) :
+    get (d.filter (fun kv => !(kv.1 == n))) k = if k = n then none else get d k := by
+  induction d with
+  | nil => simp [get]
+  | cons x xs ih =>
+    simp only [List.filter_cons]
+    by_cases hx : x.1 = n
+    · subst hx
+      simp only [beq_self_eq_true, Bool.not_true, Bool.false_eq_true, if_false, ih]
+      by_cases hk : k = x.1
+      · simp [hk]
+      · have : (x.1 == k) = false := by simp; exact fun h => hk h.symm
+        simp [hk, get, List.find?_cons, this]
+    · have hx' : (x.1 == n) = false := by simp [hx]
+      simp only [hx', Bool.not_false, if_true]
+      simp only [get, List.find?_cons] at ih ⊢
+      cases hxk : x.1 == k with
+      | true =>
+        have : k ≠ n := by intro h; subst h; simp at hxk; exact hx hxk
+        simp [this]
+      | false => simpa using ih
+
+theorem get_update (src : Dict) : ∀ (d : Dict) (k : String),
+    get (update d src) k = match get src.reverse k with | some v => some v | none => get d k := by
+  induction src with
+  | nil => intro d k; simp [update, get]
+  | cons kv r ih =>
+    intro d k
+    have hu : update d (kv :: r) = update (set d kv.1 kv.2) r := rfl
+    rw [hu, ih, List.reverse_cons, get_append, get_set]
+    cases get r.reverse k with
+    | some v => rfl
+    | none =>
+      simp only [get, List.find?_cons, List.find?_nil]
+      by_cases hk : k = kv.1
+      · subst hk; simp
+      · have : (kv.1 == k) = false := by simp; exact fun h => hk h.symm
+        simp [hk, this]
+
+theorem get_inherited (ancs : List (Option Dict)) (k : String) :
+    get (inherited true ancs) k = nearest ancs k := by
+  induction ancs with
+  | nil => simp [inherited, nearest, get]
+  | cons a as ih =>
+    have : inherited true (a :: as) =
+        (match a with | some f => update (inherited true as) f | none => inherited true as) := by
+      show (a :: as).reverse.foldl _ [] = _
+      rw [List.reverse_cons, List.foldl_append]
+      cases a <;> rfl
+    rw [this]
+    cases a with
+    | none => simpa [nearest] using ih
+    | some f =>
+      simp only [get_update, ih, nearest, List.findSome?_cons, Option.bind_some]
+      cases get f.reverse k <;> rfl
+
+theorem get_applyOwn : ∀ (own : List (String × Own)) (d : Dict) (k : String),
+    get (applyOwn d own) k = pick (own.reverse.find? (fun no => no.1 == k)) (get d k)
+  | [], d, k => by simp [applyOwn, pick]
+  | (n, .field i) :: r, d, k => by
+      simp only [applyOwn, get_applyOwn r, List.reverse_cons, List.find?_append]
+      cases r.reverse.find? (fun no => no.1 == k) with
+      | some x => obtain ⟨xn, xo⟩ := x; cases xo <;> simp [pick]
+      | none =>
+        by_cases hk : k = n
+        · subst hk; simp [get_set, pick]
+        · have : (n == k) = false := by simp; exact fun h => hk h.symm
+          simp [get_set, hk, this, pick]
+  | (n, .plain) :: r, d, k => by
+      simp only [applyOwn, get_applyOwn r, List.reverse_cons, List.find?_append]
+      cases r.reverse.find? (fun no => no.1 == k) with
+      | some x => obtain ⟨xn, xo⟩ := x; cases xo <;> simp [pick]
+      | none =>
+        by_cases hk : k = n
+        · subst hk; simp [get_filter, pick]
+        · have : (n == k) = false := by simp; exact fun h => hk h.symm
+          simp [get_filter, hk, this, pick]
+
+/-- **C07, inherited fields.**  With the walk the source performs (farthest ancestor first) the
+    Field object the builder consults for a member is the one `dataclasses` binds the constructor
+    parameter to: the class's own declaration, else that of the NEAREST dataclass ancestor that
+    has the member — for every inheritance graph, depth and re-declaration pattern. -/
+theorem collect_eq_spec (ancs : List (Option Dict)) (own : List (String × Own)) (k : String) :
+    get (collect true ancs own) k = spec ancs own k := by
+  simp only [collect, get_applyOwn, get_inherited, spec]
+
+/-- the direction of the walk matters: nearest-first binds a re-declared member of a
+    three-level chain to the ROOT's Field (decided witness, cf. seeded change M30) -/
+theorem nearest_first_walk_differs :
+    ∃ ancs k, get (collect false ancs []) k ≠ spec ancs [] k :=
+  ⟨[some [("x", 1)], some [("x", 0)]], "x", by decide⟩
+
+/-- premises are satisfiable / the theorem says something: a diamond with a re-declaration -/
+example : get (collect true [some [("x", 2), ("y", 3)], Option.none, some [("x", 0), ("z", 1)]] [("z", .plain), ("w", .field 9)]) "x" = some 2 := by decide
+example : get (collect true [some [("x", 2), ("y", 3)], Option.none, some [("x", 0), ("z", 1)]] [("z", .plain), ("w", .field 9)]) "z" = Option.none := by decide
+
+
+/-- the walk direction read from `CodeBuilder.dataclass_fields` in /repo on this run: the iterable
+    of the ancestor loop, evaluated on the sample MRO `[0 (the class), 1, 2, 3]`, is `[3, 2, 1]` -/
+theorem walk_pinned : Generated.mroFarthestFirst = true ∧ Generated.mroWalkSample = [3, 2, 1] := by decide
+
+/-- `collect_eq_spec` for the walk /repo performs -/
+theorem builder_view_eq_dataclasses (ancs : List (Option Dict)) (own : List (String × Own)) (k : String) :
+    get (collect Generated.mroFarthestFirst ancs own) k = spec ancs own k := by
+  rw [walk_pinned.1]; exact collect_eq_spec ancs own k
+
+end Mashu.Mro
